@@ -2,11 +2,12 @@
 import itertools
 import math
 import re
+import zlib
 from fractions import Fraction
 
 from ..core import Op, jkey
 from ..leanio import InfraError
-from ..rat import rat, frac, round_once_eq
+from ..rat import rat, frac, round_once_eq, tol_eq
 from .. import symx
 from ..symtrace import Sym
 from .. import gen_geom
@@ -17,47 +18,73 @@ _T = "SE.Proofs.C11."
 THEOREMS = [_T + n for n in [
     "C11_negative_rejected", "C11_dispatch", "C11_exact", "C11_valid", "C11_contains",
     "C11_result_is_widened_extent", "C11_bounds_extend", "C11_monotone", "C11_zero_buffer",
-    "C11_shapely_partial"]]
+    "C11_shapely_partial",
+    "C11_pipeline_contracts_ideal", "C11_pipeline_scaling", "C11_pipeline_in_domain", "C11_pipeline_clip_is_domain",
+    "C11_pipeline_contains", "C11_pipeline_covers_buffers", "C11_pipeline_exact_ideal", "C11_pipeline_monotone_ideal",
+    "C11_pipeline_zero_vs_tiny_buffer", "C11_pipeline_bounds_extend"]]
 LEVEL_TEXT = ("Lean theorems over the model of buffer_geometry: for time stamps, intervals and boxes the result is exactly the "
               "interval / box widened by the buffers with the clamps at time 0, frequency 0 and MAX_FREQUENCY; it is valid, "
               "contains the original as a point set, is exactly the widened extent inside the domain, its bounds extend by the "
               "buffers or reach the domain edge, larger buffers give supersets, a zero buffer changes nothing, a negative buffer "
               "is rejected for every type.  The three closed-form functions (with the real validators of the constructors they "
               "call) and the guard + dispatch of buffer_geometry for all nine type tags are re-derived from the source on each "
-              "run by path-exhaustive symbolic tracing and proved equal to the model for all coordinates and buffers.  For the six "
-              "types buffered through shapely the property is PARTIAL: C11_shapely_partial is conditional on the validator and the "
-              "bounds-level post-condition, which the check evaluates in Lean on every observed result; containment and "
-              "monotonicity of the polygonal result are asked of shapely.")
-LEVEL_NOTE = ("Trusted: Lean kernel, symbolic tracer (ordered-field semantics; data.TimeInterval / data.BoundingBox replaced by "
-              "stubs that run the classes' own field validators on symbolic coordinates; shapely pipeline stubbed in the dispatch "
-              "trace).  Unmodelled: GEOS buffering and the float scale-buffer-unscale-clip pipeline of buffer_shapely_geometry "
-              "(six of nine types): only monitored (validator and bounds post-condition in Lean, containment / superset by "
-              "shapely `covers`, an oracle outside Lean); four classes of failures of that pipeline are recorded as known "
-              "findings.  Binary64 rounding of `t - tb`, `h + fb` off the dyadic grid (round-once comparison there).  Model tied "
-              "to the code by regenerated obligations and generator-bounded correspondence.")
-TECHNIQUE = ("Lean 4 proof over model; symbolic-trace equality obligations regenerated from source; exhaustive-grid "
-             "correspondence at the domain edges; Lean-evaluated post-conditions on real shapely results")
+              "run by path-exhaustive symbolic tracing and proved equal to the model for every valid geometry and all buffers.  "
+              "For the six types buffered through shapely the pipeline of buffer_shapely_geometry is modelled on point sets "
+              "with GEOS's buffer as a parameter: its straight-line skeleton (the two scale factors incl. the 1e9 of a zero "
+              "buffer, the coordinate maps, the buffer distance, the clip rectangle) is re-derived from the source by symbolic "
+              "tracing with shapely stubbed and proved equal to the model for all inputs; the C11_pipeline_* theorems prove that "
+              "the result stays in the domain (unconditionally), that the clip only removes what is outside the domain, that "
+              "it contains the original (if GEOS's buffer contains its input), that it contains everything within rho buffer "
+              "widths of the original and its bounds extend by rho buffers or reach the domain edge (if GEOS's buffer contains "
+              "the rho-disc around every input point), and - for the exact unit buffer - that the result is exactly the "
+              "elliptical neighbourhood inside the domain and that larger buffers give supersets except a zero buffer against "
+              "a positive one below 1e-9 (proved to fail; a known finding).  The property stays PARTIAL for these six types: "
+              "GEOS's buffer itself is not modelled; its contracts are evaluated on GEOS's actual output in every run, and "
+              "validator, bounds post-condition (C11_shapely_partial), containment and superset are monitored on the result.")
+LEVEL_NOTE = ("Trusted: Lean kernel, symbolic tracer (ordered-field semantics; the nine geometry classes replaced by stubs that "
+              "run TimeInterval's / BoundingBox's own field validators on symbolic coordinates; in the pipeline trace shapely, "
+              "json and the coordinate arrays are replaced by symbolic stand-ins that see a shape through a generic point and "
+              "its bounding box).  Unmodelled: GEOS's buffer (offset curves, round caps as 32-gons, mitre joins, input "
+              "simplification) and clip_by_rect as polygon algorithms, binary64 rounding inside the pipeline: the theorems "
+              "assume `Extensive`, `CoversDisc rho`, `IsMaxTime`, evaluated per call on what GEOS returned (rho = 0.98 at probe "
+              "points around the vertices) for inputs outside the known-finding classes; containment / superset by shapely "
+              "`covers` (an oracle outside Lean); six classes of failures of the pipeline are recorded as known findings.  "
+              "Binary64 rounding of `t - tb`, `h + fb` off the dyadic grid (round-once comparison there).  Model tied to the "
+              "code by regenerated obligations, observed calls into shapely and generator-bounded correspondence.")
+TECHNIQUE = ("Lean 4 proof over model; symbolic-trace equality obligations regenerated from source (closed forms, dispatch, "
+             "pipeline skeleton); exhaustive-grid correspondence at the domain edges; observed shapely calls compared with the "
+             "model; Lean-evaluated post-conditions and run-time GEOS contracts on real results")
 RULE = ("time stamps / intervals / boxes on exhaustive small grids touching time 0, frequency 0 and MAX_FREQUENCY x buffers "
         "{negative, 0, small, clamping, larger than the domain}, random dyadic and arbitrary-float cases; the six shapely-"
-        "buffered types (random, special, domain-edge) x buffer pairs over six decades of buffer/extent; non-trivial = "
-        "buffer_geometry returned a geometry; distinct = distinct (operation, input)")
+        "buffered types (random, special, domain-edge) x buffer pairs over six decades of buffer/extent, zero buffers, buffers "
+        "down to 1e-7; buffers passed as float, int or numpy scalar; every call preceded by a call on the same object with "
+        "other buffers and followed by a repeat (purity); non-trivial = buffer_geometry returned a geometry; distinct = "
+        "distinct (operation, input)")
 TRUSTED = ["pydantic's coercion of the coordinate list before the field validators run (the validators themselves are traced)",
-           "shapely `covers` / `difference` / `distance` as the containment and superset oracle for polygonal results",
-           "symbolic tracer stubs: data.TimeInterval / data.BoundingBox -> record of the validated symbolic coordinates, "
-           "geometry_to_shapely + buffer_shapely_geometry -> marker carrying the two buffers"]
+           "shapely `covers` / `difference` / `distance` / `contains_xy` as the containment, superset and disc-contract oracle",
+           "symbolic tracer stubs: data.<Geometry> -> record of the (validated) symbolic coordinates; geometry_to_shapely + "
+           "buffer_shapely_geometry -> marker carrying the two buffers (dispatch trace); shapely.transform / buffer / "
+           "clip_by_rect / to_geojson, json.loads -> stand-ins acting on a generic point and a bounding box (pipeline trace; "
+           "a coordinate map is applied to the box corners, right for the increasing maps C11_pipeline_scaling proves them to be)",
+           "the spy around the `shapely` module seen by soundevent.geometry.operations (forwards every call unchanged)"]
 ASSUMPTIONS = ["binary64 arithmetic is exact on the dyadic grids used",
                "ordered-field semantics for the symbolic ties (no rounding)",
                "hypotheses of C11_shapely_partial (result is a Polygon / MultiPolygon, passes the validator, its bounds satisfy "
-               "bufferPost) are evaluated in Lean on every observed result of the pipeline"]
+               "bufferPost) are evaluated in Lean on every observed result of the pipeline",
+               "hypotheses of the C11_pipeline_* theorems about GEOS's buffer (Extensive, CoversDisc 49/50 at 32 probe "
+               "directions around up to 8 vertices, IsMaxTime) are evaluated on GEOS's output in every observed call with "
+               "positive buffers, no exact line reversal, buffer/extent < 1e4"]
 NOT_COMPARED = ["error messages (only the error class)",
                 "the vertices of the polygon the shapely pipeline returns (only validator, bounds, containment, superset)",
                 "OGC validity of the returned polygon",
+                "cap / join style and the margin added to max_time in the clip rectangle (only that it is >= 0)",
                 "line strings / polygons with a buffer more than 10^4 times their extent (GEOS simplifies the input by 1 % of "
                 "the buffer distance; one such case is in the corpus as a known finding)"]
 
 M = gen_geom.MAXF
 TOL = "1/1099511627776"   # 2^-40, relative to the coordinate magnitude
 COVER_TOL = 1e-9            # in widths of the buffers
+ZERO_AS = Fraction(1, 10 ** 9)   # a zero buffer is the factor 1e9, i.e. acts as the buffer 1e-9
 CLOSED = ("TimeStamp", "TimeInterval", "BoundingBox")
 SHAPELY = ("Point", "LineString", "Polygon", "MultiPoint", "MultiLineString", "MultiPolygon")
 
@@ -67,16 +94,62 @@ def _f(s):
 
 
 # ---------------------------------------------------------------- implementation adapters
-def _buffer(inp):
+def _arg(inp, key, salt):
+    """the buffer as the caller may pass it: float, int (when integral) or numpy scalar -- chosen from the whole
+    input, so a replay passes the same representation and the same value is seen in all of them over a run"""
+    q = frac(inp[key])
+    h = zlib.crc32((jkey(inp) + salt).encode())
+    if q.denominator == 1 and h % 3 == 0:
+        return int(q)
+    if h % 3 == 1:
+        import numpy as np
+        return np.float64(float(q))
+    return float(q)
+
+
+def _call(d, inp, k1="tb", k2="fb"):
     from soundevent.geometry import buffer_geometry
-    return buffer_geometry(gen_geom.to_data(inp["g"]), time_buffer=_f(inp["tb"]), freq_buffer=_f(inp["fb"]))
+    return buffer_geometry(d, time_buffer=_arg(inp, k1, "t"), freq_buffer=_arg(inp, k2, "f"))
+
+
+def _buffer(inp):
+    return _call(gen_geom.to_data(inp["g"]), inp)
+
+
+def _pure_call(inp, spy=False):
+    """buffer the same object with other buffers first, then the call that is judged (optionally observing the
+    calls into shapely), then look at the argument again and buffer it once more: the function must not modify
+    its argument nor remember anything"""
+    d = gen_geom.to_data(inp["g"])
+    before = gen_geom.from_data(d)
+    try:        # a first call on the same object with other buffers: nothing of it may show in the call that is judged
+        _call(d, {"tb": rat(frac(inp["tb"]) + 1), "fb": rat(frac(inp["fb"]) + 2)})
+    except Exception:  # noqa: BLE001
+        pass
+    if spy:
+        with _spying() as sp:
+            r = _call(d, inp)
+    else:
+        sp, r = None, _call(d, inp)
+    out = {"val": gen_geom.from_data(r)}
+    if gen_geom.from_data(d) != before:
+        out["impure"] = "the geometry passed as argument was modified"
+    else:
+        try:
+            again = gen_geom.from_data(_call(d, inp))
+        except Exception as e:  # noqa: BLE001
+            again = repr(e)[:80]
+        if again != out["val"]:
+            out["impure"] = "a second call with the same arguments gave a different result"
+    return d, r, out, sp
 
 
 def _impl_closed(inp):
-    return {"val": gen_geom.from_data(_buffer(inp))}
+    return _pure_call(inp)[2]
 
 
 _LIB_CACHE = {}
+_PIPE_CACHE = {}
 
 
 def _uncovered(outer, inner, sx, sy):
@@ -97,21 +170,112 @@ def _uncovered(outer, inner, sx, sy):
     return max(0.0, dist - float(mx.max()) * 2.0 ** -46)
 
 
+class _Spy:
+    """wraps the `shapely` module seen by soundevent.geometry.operations: the real functions run, their
+    arguments and results are kept"""
+
+    def __init__(self, real):
+        self._real = real
+        self.transforms, self.buffers, self.clips = [], [], []
+
+    def __getattr__(self, name):
+        return getattr(self._real, name)
+
+    def transform(self, geometry, transformation, *a, **kw):
+        out = self._real.transform(geometry, transformation, *a, **kw)
+        self.transforms.append((geometry, transformation, out))
+        return out
+
+    def buffer(self, geometry, distance, *a, **kw):
+        out = self._real.buffer(geometry, distance, *a, **kw)
+        self.buffers.append((geometry, distance, out))
+        return out
+
+    def clip_by_rect(self, geometry, xmin, ymin, xmax, ymax, *a, **kw):
+        out = self._real.clip_by_rect(geometry, xmin, ymin, xmax, ymax, *a, **kw)
+        self.clips.append((geometry, (xmin, ymin, xmax, ymax), out))
+        return out
+
+
+class _spying:
+    def __enter__(self):
+        import shapely
+        import soundevent.geometry.operations as ops
+        self.ops, self.saved = ops, getattr(ops, "shapely", None)
+        self.spy = _Spy(shapely)
+        if self.saved is shapely:
+            ops.shapely = self.spy
+        return self.spy
+
+    def __exit__(self, *exc):
+        if self.saved is not None:
+            self.ops.shapely = self.saved
+        return False
+
+
+RHO = Fraction(49, 50)        # < cos(pi/32) - 1/100: GEOS round caps are 32-gons inscribed in the unit circle (apothem 0.99518) and it
+                              # simplifies the input line by up to 1 % of the distance before offsetting
+_DIRS = [((k + 0.5) * math.pi / 16) for k in range(32)]    # mid-edge directions of the caps: the worst ones
+
+
+def _observe(sp, r):
+    """what `buffer_shapely_geometry` asked of shapely in this call, and the contracts of the pipeline theorems
+    evaluated on what GEOS returned; None if the calls were not of the expected shape (nothing is concluded)"""
+    import numpy as np
+    import shapely
+    from soundevent.geometry import geometry_to_shapely
+    if sp is None or len(sp.buffers) != 1 or len(sp.clips) != 1 or len(sp.transforms) != 2:
+        return None
+    (T0, f1, T), (Tb, dist, B), (B0, f2, U), (Uc, rect, C) = sp.transforms[0], sp.buffers[0], sp.transforms[1], sp.clips[0]
+    if Tb is not T or B0 is not B or Uc is not U:
+        return None
+    one = np.array([[1.0, 1.0]])
+    sc, un = np.asarray(f1(one.copy()), dtype=float)[0], np.asarray(f2(one.copy()), dtype=float)[0]
+    obs = {"scaled": [rat(sc[0]), rat(sc[1])], "dist": rat(dist), "unscaled": [rat(un[0]), rat(un[1])],
+           "rect": [rat(x) for x in rect], "qm": rat(B.bounds[2]) if not B.is_empty else None,
+           "max_time": rat(U.bounds[2]) if not U.is_empty else None,
+           "returned_clipped": bool(geometry_to_shapely(r).equals(C))}
+    con = {}
+    if not B.is_empty:
+        con["extensive"] = bool(B.covers(T))
+        ux = shapely.get_coordinates(U)[:, 0]
+        con["is_max_time"] = bool(ux.max() <= U.bounds[2])
+        v = shapely.get_coordinates(T)
+        v = v[np.linspace(0, len(v) - 1, min(len(v), 8)).astype(int)]
+        rho = float(RHO)
+        px = (v[:, None, 0] + rho * np.cos(_DIRS)[None, :]).ravel()
+        py = (v[:, None, 1] + rho * np.sin(_DIRS)[None, :]).ravel()
+        con["covers_disc"] = bool(shapely.contains_xy(B, px, py).all())
+        con["scaled_magnitude"] = float(np.abs(v).max())
+    obs["contracts"] = con
+    return obs
+
+
 def _impl_shapely(inp):
     from soundevent.geometry import geometry_to_shapely
-    d = gen_geom.to_data(inp["g"])
-    r = _buffer(inp)
-    rj = gen_geom.from_data(r)
-    _LIB_CACHE[jkey(inp)] = rj
-    unc = _uncovered(geometry_to_shapely(r), geometry_to_shapely(d), _f(inp["tb"]), _f(inp["fb"]))
-    return {"val": rj, "uncovered": repr(unc)}
+    d, r, out, sp = _pure_call(inp, spy=True)
+    _LIB_CACHE[jkey(inp)] = out["val"]
+    try:
+        _PIPE_CACHE[jkey(inp)] = _observe(sp, r)
+    except Exception:  # noqa: BLE001 - an observation that cannot be made concludes nothing
+        _PIPE_CACHE[jkey(inp)] = None
+    out["uncovered"] = repr(_uncovered(geometry_to_shapely(r), geometry_to_shapely(d), _f(inp["tb"]), _f(inp["fb"])))
+    return out
+
+
+def _impl_pipeline(inp):
+    k = jkey(inp)
+    if k not in _PIPE_CACHE:
+        _impl_shapely(inp)
+    obs = _PIPE_CACHE.get(k)
+    return {"val": obs} if obs is not None else {"val": None}
 
 
 def _impl_monotone(inp):
-    from soundevent.geometry import buffer_geometry, geometry_to_shapely
+    from soundevent.geometry import geometry_to_shapely
     d = gen_geom.to_data(inp["g"])
-    r1 = buffer_geometry(d, time_buffer=_f(inp["tb"]), freq_buffer=_f(inp["fb"]))
-    r2 = buffer_geometry(d, time_buffer=_f(inp["tb2"]), freq_buffer=_f(inp["fb2"]))
+    r1 = _call(d, inp)
+    r2 = _call(d, inp, "tb2", "fb2")
     ex = _uncovered(geometry_to_shapely(r2), geometry_to_shapely(r1), _f(inp["tb2"]), _f(inp["fb2"]))
     return {"val": {"excess": repr(ex)}}
 
@@ -138,6 +302,8 @@ def _flat(c):
 
 
 def _cmp_closed_free(inp, io, mo):
+    if io.get("impure"):
+        return io["impure"]
     if "val" not in io or "val" not in mo:
         a = {k: v for k, v in io.items() if k != "trace"}
         return None if a == mo else "implementation and model disagree"
@@ -153,7 +319,7 @@ def _cmp_closed_free(inp, io, mo):
 
 
 def _cmp_shapely(inp, io, mo):
-    a = {k: v for k, v in io.items() if k not in ("trace", "uncovered")}
+    a = {k: v for k, v in io.items() if k not in ("trace", "uncovered", "impure")}
     return None if a == mo else "guard / dispatch of buffer_geometry disagrees with the model"
 
 
@@ -167,6 +333,8 @@ def _holds_closed(ctx, inp, io):
         return None if io.get("raise") == "invalid" else "a negative buffer was not rejected with ValueError"
     if "val" not in io:
         return f"buffer_geometry raised {io.get('raise')} on a valid geometry with non-negative buffers"
+    if io.get("impure"):
+        return io["impure"]
     p = _post(ctx, inp, io["val"])
     if not p["valid"]:
         return "result is not a valid geometry (leaves the domain or is mis-ordered)"
@@ -186,6 +354,13 @@ def _ratio(inp):
     return out
 
 
+def _zero_axis_max(inp):
+    """largest coordinate along the axes whose buffer is exactly zero (these are multiplied by 1e9)"""
+    from soundevent.geometry import compute_bounds
+    b = compute_bounds(gen_geom.to_data(inp["g"]))
+    return max([b[2]] * (frac(inp["tb"]) == 0) + [b[3]] * (frac(inp["fb"]) == 0) + [0.0])
+
+
 def _has_reversal(gj):
     """a vertex at which a line string turns back on itself exactly (collinear, opposite direction)"""
     lines = [gj["coordinates"]] if gj["type"] == "LineString" else gj["coordinates"] if gj["type"] == "MultiLineString" else []
@@ -203,9 +378,12 @@ def _holds_shapely(ctx, inp, io):
     tb, fb = frac(inp["tb"]), frac(inp["fb"])
     if tb < 0 or fb < 0:
         return None if io.get("raise") == "invalid" else "a negative buffer was not rejected with ValueError"
-    facts = f"type={inp['g']['type']} zero_buffer={tb == 0 or fb == 0} reversal={_has_reversal(inp['g'])} ratio={_ratio(inp):.3e}"
+    facts = (f"type={inp['g']['type']} zero_buffer={tb == 0 or fb == 0} reversal={_has_reversal(inp['g'])} "
+             f"ratio={_ratio(inp):.3e} zero_axis_max={_zero_axis_max(inp):.3e}")
     if "val" not in io:
         return f"buffer_geometry raised {io.get('raise')} on a valid geometry with non-negative buffers; {facts}"
+    if io.get("impure"):
+        return io["impure"]
     p = _post(ctx, inp, io["val"])
     if not p["poly"]:
         ctx.tally("shapely:result-not-polygonal")     # not required by the property; the checks below still apply
@@ -225,8 +403,9 @@ def _holds_monotone(ctx, inp, io):
         return f"buffer_geometry raised {io.get('raise')}; type={inp['g']['type']}"
     ex = float(io["val"]["excess"])
     if not ex <= COVER_TOL:
+        tiny = any(frac(inp[a]) == 0 and 0 < frac(inp[b]) < ZERO_AS for a, b in (("tb", "tb2"), ("fb", "fb2")))
         return (f"larger buffers do not give a superset; excess={ex:.6e} widths of the larger buffers; "
-                f"type={inp['g']['type']}")
+                f"type={inp['g']['type']} zero_vs_tiny={tiny}")
     return None
 
 
@@ -239,6 +418,61 @@ def _safe(fn):
         except Exception as e:  # noqa: BLE001
             return f"property monitor could not be evaluated on the implementation's output: {e!r}"
     return wrapped
+
+
+def _cmp_pipeline(inp, io, mo):
+    """the calls into shapely against `pipelineSkeleton` (probe points (1, 1)): the factors are one correctly
+    rounded division, the inverse map and the clip rectangle go through a second rounding (tolerance)"""
+    obs = io.get("val") if isinstance(io, dict) else None
+    if not obs or "val" not in mo:
+        return None            # rejected before the pipeline, or the calls were not observed: nothing to compare
+    m = mo["val"]
+    for a, b in zip(obs["scaled"], m["scaled"]):
+        if not round_once_eq(frac(b), _f(a)):
+            return f"scale factor {_f(a)!r} is not the correctly rounded model value {b}"
+    if frac(obs["dist"]) != frac(m["dist"]):
+        return f"buffer distance {obs['dist']} in the scaled space, model {m['dist']}"
+    for a, b in zip(obs["unscaled"], m["unscaled"]):
+        if not tol_eq(frac(b), _f(a)):
+            return f"inverse scale factor {_f(a)!r}, model {b}"
+    r = obs["rect"]
+    if [frac(r[0]), frac(r[1]), frac(r[3])] != [frac(x) for x in m["rect"]]:
+        return f"clip rectangle {r}, model {m['rect']}"
+    if obs["qm"] is not None and not (m["clip_keeps_max_time"] or tol_eq(frac(obs["max_time"]), _f(r[2]))):
+        return f"clip rectangle ends at {_f(r[2])!r}, before the largest time of the buffer {_f(obs['max_time'])!r}"
+    if not obs["returned_clipped"]:
+        return "the returned geometry is not the clipped shape"
+    return None
+
+
+def _holds_pipeline(ctx, inp, io):
+    """hypotheses of the pipeline theorems about GEOS, evaluated on what GEOS returned in this call"""
+    if not isinstance(io, dict) or "val" not in io:
+        return None            # rejected before the pipeline was reached
+    obs = io["val"]
+    if not obs:
+        ctx.tally("pipeline:not-observed")
+        return None
+    con = obs.get("contracts") or {}
+    if not con:
+        return None
+    tb, fb = frac(inp["tb"]), frac(inp["fb"])
+    ctx.contract("geos_bounds_is_max_time", con["is_max_time"], inp, con)
+    # GEOS's buffer in its regular regime (the known findings describe what happens outside of it)
+    regular = (tb > 0 and fb > 0 and not _has_reversal(inp["g"]) and _ratio(inp) < 1e4
+               and con["scaled_magnitude"] < 1e9)
+    if regular:
+        ctx.contract("geos_buffer_extensive", con["extensive"], inp, con,
+                     "GEOS's buffer of the scaled geometry does not contain it (hypothesis `Extensive`)")
+        ctx.contract("geos_buffer_covers_disc", con["covers_disc"], inp, con,
+                     f"GEOS's buffer misses a point within {RHO} of a vertex (hypothesis `CoversDisc {RHO}`)")
+    return None
+
+
+def _to_model_pipeline(inp):
+    obs = _PIPE_CACHE.get(jkey(inp)) or {}
+    return {"px": "1", "py": "1", "qx": "1", "qy": "1", "qm": obs.get("qm") or "0",
+            "xmax": (obs.get("rect") or ["0"] * 4)[2], "tb": inp["tb"], "fb": inp["fb"]}
 
 
 def _to_model_shapely(inp):
@@ -262,6 +496,9 @@ OPS = {
     "monotone_shapely": Op("monotone_shapely", _impl_monotone, to_model=lambda i: {"g": i["g"]},
                            compare=lambda i, a, b: None, holds=_safe(_holds_monotone), determined=False,
                            mode="tolerance", model_op="valid"),
+    "pipeline_args": Op("pipeline_args", _impl_pipeline, to_model=_to_model_pipeline, compare=_cmp_pipeline,
+                        holds=_safe(_holds_pipeline), determined=False, mode="tolerance",
+                        nontrivial=lambda i, o: bool(isinstance(o, dict) and o.get("val"))),
     "valid": Op("valid", _impl_valid),
 }
 
@@ -290,8 +527,9 @@ def _m_zero_buffer(f, m):
     d = f.detail
     if f.kind != "property" or _fact(d, "zero_buffer") != "True":
         return False
-    if "raised key on" in d:
-        return True
+    if "raised key on" in d:      # GEOS returned an empty buffer: only where the scaled coordinates are huge
+        z = _num(d, "zero_axis_max")
+        return z is not None and z >= float(Fraction(m.get("min_key_coordinate", "0")))
     sf = _num(d, "max_shortfall")
     return sf is not None and 0 < sf <= float(Fraction(m["max_shortfall"]))
 
@@ -323,7 +561,17 @@ def _m_monotone_mitre(f, m):
             and 0 < ex <= float(Fraction(m["max_excess"])))
 
 
-FINDING_MATCHERS = {"approx_shortfall": _m_approx_shortfall, "zero_buffer": _m_zero_buffer,
+def _m_zero_vs_tiny(f, m):
+    """a zero buffer acts as the buffer 1e-9 (factor 1e9): the result for a positive buffer below 1e-9 is smaller"""
+    d = f.detail
+    ex = _num(d, "excess")
+    if f.kind not in ("property", "correspondence") or ex is None or _fact(d, "zero_vs_tiny") != "True" or not f.inp:
+        return False
+    tiny = [frac(f.inp[b]) for a, b in (("tb", "tb2"), ("fb", "fb2")) if frac(f.inp[a]) == 0 and 0 < frac(f.inp[b]) < ZERO_AS]
+    return 0 < ex <= 1.001 * sum(float(ZERO_AS / t) for t in tiny)
+
+
+FINDING_MATCHERS = {"zero_vs_tiny": _m_zero_vs_tiny, "approx_shortfall": _m_approx_shortfall, "zero_buffer": _m_zero_buffer,
                     "line_reversal": _m_line_reversal, "huge_ratio": _m_huge_ratio, "monotone_mitre": _m_monotone_mitre}
 
 
@@ -348,28 +596,37 @@ class _Built:
         self.coordinates = coords
 
 
-class _Ctor:
-    """stands in for data.TimeInterval / data.BoundingBox: runs the class's own field validators (the real
-    code, in pydantic's order) on the symbolic coordinates and records the result"""
+class _CtorMeta(type):
+    """the nine geometry classes as the traced code sees them: `data.X(coordinates=...)` runs the class's own
+    field validators (the real code, in pydantic's order) on the symbolic coordinates and records the result;
+    `isinstance(g, data.X)` looks at the stub's type tag"""
 
-    def __init__(self, cls, tag):
-        self.cls = cls
-        self.tag = tag
+    def __instancecheck__(cls, obj):
+        return getattr(obj, "type", None) == cls.tag
 
-    def __call__(self, coordinates):
-        v = list(coordinates)
-        decs = self.cls.__pydantic_decorators__.field_validators
-        for dec in decs.values():
-            if "coordinates" in dec.info.fields:
-                v = dec.func(v)
-        return _Built(self.tag, list(v))
+    def __call__(cls, coordinates=None, **kw):
+        v = coordinates
+        if cls.validate:
+            v = list(v)
+            decs = cls.real.__pydantic_decorators__.field_validators
+            for dec in decs.values():
+                if "coordinates" in dec.info.fields:
+                    v = dec.func(v)
+            v = list(v)
+        return _Built(cls.tag, v)
+
+
+def _Ctor(real_cls, tag, validate=True):
+    return _CtorMeta("Stub" + tag, (), {"real": real_cls, "tag": tag, "validate": validate})
 
 
 class _DataProxy:
     def __init__(self, real):
         self._real = real
-        self.TimeInterval = _Ctor(real.TimeInterval, "TimeInterval")
-        self.BoundingBox = _Ctor(real.BoundingBox, "BoundingBox")
+        for tag in gen_geom.TYPES:
+            cls = getattr(real, tag, None)
+            if cls is not None:
+                setattr(self, tag, _Ctor(cls, tag, validate=tag in ("TimeInterval", "BoundingBox")))
 
     def __getattr__(self, name):
         return getattr(self._real, name)
@@ -387,9 +644,10 @@ class _Marker:
 
 
 def _geom_leaf(v):
-    if not isinstance(v, _Built):
+    if not isinstance(v, (_Built, _StubGeometry)):
         raise TypeError(f"traced function returned {type(v).__name__}")
-    c = [symx.num(x) for x in v.coordinates]
+    cs = v.coordinates if isinstance(v.coordinates, (list, tuple)) else [v.coordinates]
+    c = [symx.num(x) for x in cs]
     if v.type == "TimeInterval" and len(c) == 2:
         return f"some (SE.Geom.timeInterval {c[0]} {c[1]})"
     if v.type == "BoundingBox" and len(c) == 4:
@@ -404,7 +662,26 @@ _DEFS = ["SE.Buf.bufferGeometry", "SE.Buf.bufferTS", "SE.Buf.bufferTI", "SE.Buf.
 
 
 def _tactic(name):
-    return f"unfold {name}\n  " + "\n  ".join(f"try unfold {d}" for d in _DEFS) + "\n  first | rfl | grind (splits := 60) | se_close"
+    return (f"unfold {name}\n  try simp only [SE.Buf.valid, SE.Buf.okTime, SE.Buf.okPt, Bool.and_eq_true, decide_eq_true_eq] at hv\n  "
+            + "\n  ".join(f"try unfold {d}" for d in _DEFS) + "\n  try unfold SE.MAXF at hv\n  first | rfl | grind (splits := 60) | se_close")
+
+
+def _tie_valid(ctx, name, fn, variables, model_term, witness, meta):
+    """symx.sym_tie, with the property's quantifier as a hypothesis: the traced function equals the model on
+    every *valid* geometry (and every pair of buffers, negative ones included)"""
+    try:
+        src, tree, n = symx.extract(name, fn, variables, "Option SE.Geom", _geom_leaf)
+    except InfraError:
+        raise
+    except Exception as e:  # noqa: BLE001 - the stub no longer fits the code: a broken obligation, never a crash
+        ctx.symbolic_ties[name] = {"error": repr(e)[:300]}
+        ctx.pre_failed.append(name)
+        ctx.fail("obligation", name, detail=f"symbolic trace of the current source failed: {e!r}", extra=dict(meta))
+        return
+    ctx.symbolic_ties[name] = {"paths": n}
+    args = " ".join(variables)
+    ctx.obligation(name, f"{src}\ntheorem {name}_tie ({args} : Rat) (hv : SE.Buf.valid {witness} = true) : "
+                         f"{name} {args} = {model_term} := by\n  {_tactic(name)}\n", meta)
 
 
 _LIB = "(fun _ tb fb => some (SE.Geom.point tb fb))"
@@ -437,27 +714,209 @@ def _symbolic_ties(ctx):
                  _StubGeometry("BoundingBox", [sy["s"], sy["l"], sy["e"], sy["h"]]), time_buffer=tb, freq_buffer=fb),
              "SE.Buf.bufferBB s l e h tb fb"),
         ]
-        for fname, V, thunk, mterm in closed:
+        for (fname, V, thunk, mterm), ty in zip(closed, CLOSED):
             name = "ext_" + fname
-            symx.sym_tie(ctx, name, thunk, V, "Option SE.Geom", mterm, _geom_leaf,
-                         tactic=_tactic(name),
-                         meta={"op": "buffer_closed"})
+            _tie_valid(ctx, name, thunk, V, mterm, _WITNESS[ty][1], {"op": "buffer_closed"})
         # guard + dispatch of buffer_geometry, for every type tag
         for ty in gen_geom.TYPES:
             cv, witness = _WITNESS[ty]
             coords = [sy[n] for n in cv]
             coords = coords[0] if ty == "TimeStamp" else coords
             name = "ext_buffer_geometry_" + ty
+            if ty in CLOSED:
+                _tie_valid(ctx, name,
+                           lambda ty=ty, coords=coords: ops.buffer_geometry(_StubGeometry(ty, coords), time_buffer=tb, freq_buffer=fb),
+                           cv + ["tb", "fb"], f"SE.Buf.bufferGeometry {_LIB} {witness} tb fb", witness, {"op": "buffer_closed"})
+                continue
             symx.sym_tie(ctx, name,
                          lambda ty=ty, coords=coords: ops.buffer_geometry(_StubGeometry(ty, coords), time_buffer=tb, freq_buffer=fb),
                          cv + ["tb", "fb"], "Option SE.Geom",
                          f"SE.Buf.bufferGeometry {_LIB} {witness} tb fb", _geom_leaf,
                          tactic=_tactic(name),
-                         meta={"op": "buffer_closed" if ty in CLOSED else "buffer_shapely"})
+                         meta={"op": "buffer_shapely"})
     finally:
         for n, v in orig.items():
             if v is not None:
                 setattr(ops, n, v)
+
+
+# ---- the shapely pipeline: symbolic stand-ins for numpy coordinate arrays, shapely and json
+class _SymArr:
+    """an (n, 2) coordinate array of symbolic numbers: what the callbacks of `shapely.transform` receive"""
+
+    def __init__(self, rows):
+        self.rows = [list(r) for r in rows]
+
+    def _zip(self, o, fn):
+        if isinstance(o, _SymArr):
+            cols = None
+            other = o.rows
+        else:
+            other = None
+            try:
+                cols = list(o)
+            except TypeError:
+                cols = [o, o]
+            if len(cols) != 2:
+                raise TypeError("cannot broadcast against an (n, 2) array")
+        out = []
+        for i, r in enumerate(self.rows):
+            c = other[i] if other is not None else cols
+            out.append([fn(Sym.lift(r[0]), c[0]), fn(Sym.lift(r[1]), c[1])])
+        return _SymArr(out)
+
+    __array_ufunc__ = None     # numpy operands defer to the reflected methods below
+
+    def __mul__(self, o): return self._zip(o, lambda a, b: a * b)
+    def __rmul__(self, o): return self._zip(o, lambda a, b: b * a)
+    def __truediv__(self, o): return self._zip(o, lambda a, b: a / b)
+    def __add__(self, o): return self._zip(o, lambda a, b: a + b)
+    def __radd__(self, o): return self._zip(o, lambda a, b: b + a)
+    def __sub__(self, o): return self._zip(o, lambda a, b: a - b)
+    def __len__(self): return len(self.rows)
+    def __iter__(self): return iter(self.rows)
+
+    def __getitem__(self, k):
+        if isinstance(k, tuple) and len(k) == 2 and isinstance(k[0], slice) and isinstance(k[1], int):
+            return [r[k[1]] for r in self.rows[k[0]]]
+        return self.rows[k]
+
+    @property
+    def shape(self): return (len(self.rows), 2)
+
+    @property
+    def T(self): return [[r[0] for r in self.rows], [r[1] for r in self.rows]]
+
+
+class _SymShape:
+    """a shapely geometry seen through one generic point and its bounding box (symbolic).  A coordinate map
+    is applied to the point and to the two corners of the box (right for maps that increase along each axis,
+    which is what `C11_pipeline_scaling` proves of both transforms)."""
+
+    def __init__(self, log, pt, bounds):
+        self._log, self.pt, self._bounds = log, pt, bounds
+
+    @property
+    def bounds(self):
+        return tuple(self._bounds)
+
+    def buffer(self, distance, **kw):
+        return _ShapelyStub.buffer_(self._log, self, distance)
+
+    @property
+    def __geo_interface__(self):
+        return {"type": self._log["kind"], "coordinates": self}
+
+
+class _GeoJson:
+    def __init__(self, kind, shape):
+        self.kind, self.shape = kind, shape
+
+
+class _ShapelyStub:
+    """stands in for the `shapely` module inside `buffer_shapely_geometry`: records what the function asks of it"""
+
+    def __init__(self, real, log, kind):
+        self._real, self._log, self._kind = real, log, kind
+        log["kind"] = kind
+
+    def __getattr__(self, name):
+        return getattr(self._real, name)
+
+    def transform(self, geometry, transformation, include_z=False, **kw):
+        out = transformation(_SymArr([geometry.pt, geometry.bounds[:2], geometry.bounds[2:]]))
+        rows = [list(r) for r in out]
+        self._log.setdefault("transforms", []).append(rows[0])
+        return _SymShape(self._log, rows[0], rows[1] + rows[2])
+
+    @staticmethod
+    def buffer_(log, geometry, distance):
+        if "buffer" in log:
+            raise TypeError("shapely.buffer called more than once")
+        log["buffer"] = (geometry.pt, distance)
+        q = [Sym.var("qx"), Sym.var("qy")]
+        return _SymShape(log, q, [Sym.var("q0"), Sym.var("q1"), Sym.var("qm"), Sym.var("q3")])
+
+    def buffer(self, geometry, distance, *a, **kw):
+        return _ShapelyStub.buffer_(self._log, geometry, distance)
+
+    def clip_by_rect(self, geometry, xmin, ymin, xmax, ymax, **kw):
+        if "clip" in self._log:
+            raise TypeError("shapely.clip_by_rect called more than once")
+        self._log["clip"] = (geometry.pt, [xmin, ymin, xmax, ymax], geometry.bounds[2])
+        return _SymShape(self._log, geometry.pt, geometry.bounds)
+
+    def to_geojson(self, geometry, *a, **kw):
+        return _GeoJson(self._kind, geometry)
+
+
+class _JsonStub:
+    def __init__(self, real):
+        self._real = real
+
+    def __getattr__(self, name):
+        return getattr(self._real, name)
+
+    def loads(self, s, *a, **kw):
+        if isinstance(s, _GeoJson):
+            return {"type": s.kind, "coordinates": s.shape}
+        return self._real.loads(s, *a, **kw)
+
+
+def _pipeline_thunk(ops, kind, tb, fb):
+    """run the real `buffer_shapely_geometry` on a symbolic shape; the value is everything it asked of shapely"""
+    import json as real_json
+    import shapely as real_shapely
+    from soundevent import data as real_data
+
+    def thunk():
+        log = {}
+        proxy = _DataProxy(real_data)
+        saved = {n: getattr(ops, n, None) for n in ("shapely", "json", "data")}
+        ops.shapely, ops.json, ops.data = _ShapelyStub(real_shapely, log, kind), _JsonStub(real_json), proxy
+        try:
+            g = _SymShape(log, [Sym.var("px"), Sym.var("py")],
+                          [Sym.var("p0"), Sym.var("p1"), Sym.var("p2"), Sym.var("p3")])
+            out = ops.buffer_shapely_geometry(g, time_buffer=tb, freq_buffer=fb)
+        finally:
+            for n, v in saved.items():
+                if v is not None:
+                    setattr(ops, n, v)
+                elif hasattr(ops, n):
+                    delattr(ops, n)
+        if not isinstance(out, _Built) or out.type != kind or not isinstance(out.coordinates, _SymShape):
+            raise TypeError(f"a clipped {kind} was not returned as data.{kind}")
+        if "buffer" not in log or "clip" not in log:
+            raise TypeError("the function did not buffer and clip through shapely")
+        if out.coordinates.pt is not log["clip"][0]:
+            raise TypeError("the returned geometry is not the clipped one")
+        return log
+    return thunk
+
+
+def _pipeline_leaf(log):
+    n = symx.num
+    sc, dist = log["buffer"]
+    un, rect, max_time = log["clip"]
+    return (f"some (({n(sc[0])}, {n(sc[1])}), {n(dist)}, ({n(un[0])}, {n(un[1])}), "
+            f"{n(rect[0])}, {n(rect[1])}, decide ({n(max_time)} ≤ {n(rect[2])}), {n(rect[3])})")
+
+
+_PIPE_DEFS = ["SE.Buf.pipelineSkeletonSpec", "SE.Buf.scalePt", "SE.Buf.unscalePt", "SE.Buf.clipRect", "SE.Buf.factor", "SE.MAXF"]
+
+
+def _pipeline_ties(ctx):
+    import soundevent.geometry.operations as ops
+    tb, fb = Sym.var("tb"), Sym.var("fb")
+    for kind in ("Polygon", "MultiPolygon"):
+        name = "ext_buffer_shapely_geometry_" + kind
+        tac = (f"unfold {name}\n  " + "\n  ".join(f"try unfold {d}" for d in _PIPE_DEFS)
+               + "\n  first\n  | rfl\n  | ((repeat' split) <;> (try simp only [Option.some.injEq, Prod.mk.injEq, decide_eq_true_eq]) <;> grind)"
+               + "\n  | grind (splits := 20)\n  | se_close")
+        symx.sym_tie(ctx, name, _pipeline_thunk(ops, kind, tb, fb), ["px", "py", "qx", "qy", "qm", "tb", "fb"],
+                     "Option (SE.Pt × Rat × SE.Pt × Rat × Rat × Bool × Rat)",
+                     "some (SE.Buf.pipelineSkeletonSpec px py qx qy tb fb)", _pipeline_leaf,
+                     tactic=tac, meta={"op": "buffer_shapely"})
 
 
 # ---------------------------------------------------------------- tie 2 generators
@@ -599,6 +1058,22 @@ def shapely_cases(rng, n):
         yield _case(g, tb, fb)
 
 
+def tiny_buffer_cases(rng, n):
+    """buffers far below the geometry's extent (1e-7 .. 1e-3 of a unit), on small coordinates where binary64
+    still resolves them"""
+    for i in range(n):
+        g = _norm(gen_geom.gen_valid(rng, SHAPELY[i % 6], tmax=8.0, fmax=8.0, k=3))
+        if g["type"] in ("Polygon", "MultiPolygon") and not gen_geom.is_simple(g):
+            continue
+        tb = Fraction(rng.randint(1, 1 << 10), 1 << rng.choice([20, 24, 28, 33]))
+        fb = Fraction(rng.randint(1, 1 << 10), 1 << rng.choice([20, 24, 28, 33]))
+        if i % 4 == 0:
+            fb = _buffers_for(rng, g)[1]
+        elif i % 4 == 1:
+            tb = _buffers_for(rng, g)[0]
+        yield _case(g, tb, fb)
+
+
 def zero_buffer_cases(rng, n):
     """one buffer (or both) exactly zero: the factor-1e9 branch of the pipeline"""
     geoms = shapely_special_geometries()
@@ -618,6 +1093,23 @@ def monotone_cases(rng, n):
             continue
         k1, k2 = rng.choice([(1, 1), (1, Fraction(3, 2)), (Fraction(3, 2), 1), (4, 4), (Fraction(1025, 1024), 1), (2, 1), (1, 8)])
         yield {"g": c["g"], "tb": c["tb"], "fb": c["fb"], "tb2": rat(tb * k1), "fb2": rat(fb * k2)}
+
+
+def monotone_zero_cases(rng, n):
+    """the smaller pair has a zero buffer (the factor 1e9, which acts as the buffer 1e-9): against the same pair,
+    and against a positive buffer of at least 1e-9 on that axis (hypotheses `hzt`, `hzf` of
+    C11_pipeline_monotone_ideal); small coordinates, where 1e-9 is still resolved"""
+    for i in range(n):
+        g = _norm(gen_geom.gen_valid(rng, SHAPELY[i % 6], tmax=8.0, fmax=8.0, k=3))
+        if g["type"] in ("Polygon", "MultiPolygon") and not gen_geom.is_simple(g):
+            continue
+        tb, fb = _buffers_for(rng, g, decades=(-1, 1))
+        up = rng.choice([Fraction(0), Fraction(1, 10 ** 9), Fraction(1, 1 << 20), Fraction(1, 8), Fraction(2)])
+        k = rng.choice([1, Fraction(3, 2), 4])
+        if i % 2:
+            yield {"g": g, "tb": "0", "fb": rat(fb), "tb2": rat(up), "fb2": rat(fb * k)}
+        else:
+            yield {"g": g, "tb": rat(tb), "fb": "0", "tb2": rat(tb * k), "fb2": rat(up)}
 
 
 def valid_cases(rng, results, n):
@@ -713,17 +1205,25 @@ def _shapely_stage(ctx):
     zc = list(zero_buffer_cases(ctx.rng, ctx.budget(360, 3600)))
     ctx.tally("shapely:zero-buffer", len(zc))
     ctx.run_cases(OPS["buffer_shapely"], zc)
+    tc = list(tiny_buffer_cases(ctx.rng, ctx.budget(240, 2400)))
+    ctx.tally("shapely:tiny-buffer", len(tc))
+    ctx.run_cases(OPS["buffer_shapely"], tc)
+    ctx.run_cases(OPS["pipeline_args"], cases + zc + tc)
     results = [v for v in list(_LIB_CACHE.values())[:ctx.budget(150, 1500)] if v]
     ctx.run_cases(OPS["valid"], valid_cases(ctx.rng, results, ctx.budget(180, 2700)))
 
 
 def _monotone_stage(ctx):
     ctx.run_cases(OPS["monotone_shapely"], monotone_cases(ctx.rng, ctx.budget(1200, 12000)))
+    zc = list(monotone_zero_cases(ctx.rng, ctx.budget(180, 1800)))
+    ctx.tally("monotone:zero-buffer", len(zc))
+    ctx.run_cases(OPS["monotone_shapely"], zc)
 
 
 def run(ctx):
     ctx.stage("tables", _table_obligations, ctx)
     ctx.stage("symbolic-ties", _symbolic_ties, ctx)
+    ctx.stage("symbolic-pipeline", _pipeline_ties, ctx)
     ctx.stage("discharge", ctx.discharge, ["SoundeventModel.Buffer", "SoundeventModel.Tactics"])
     ctx.stage("corpus", ctx.run_corpus, OPS)
     ctx.stage("closed-forms", _closed_stage, ctx)
@@ -735,4 +1235,5 @@ def search(ctx, failures):
     """a tie broke: the exhaustive edge grid and a wide random stream of every operation"""
     ctx.stage("search-closed", lambda: ctx.run_cases(OPS["buffer_closed"], list(closed_grid_cases())
                                                      + list(closed_random_cases(ctx.rng, 6000))))
-    ctx.stage("search-shapely", lambda: ctx.run_cases(OPS["buffer_shapely"], list(shapely_cases(ctx.rng, 900))))
+    ctx.stage("search-shapely", lambda: ctx.run_cases(OPS["buffer_shapely"], list(shapely_cases(ctx.rng, 900))
+                                                      + list(zero_buffer_cases(ctx.rng, 120)) + list(tiny_buffer_cases(ctx.rng, 120))))
